@@ -404,6 +404,9 @@ def propagate_new_temporaries(mod, pinned):
                 st = _stmt_of(stores[0])
                 if not (isinstance(st, ast.Assign) and len(st.targets) == 1 and st.targets[0] is stores[0]):
                     continue
+                # a name that a nested function / class reads or writes (closure variable) is shared state, not a temporary
+                if any(isinstance(x, ast.Name) and x.id == name for d_ in ast.walk(fn) if d_ is not fn and isinstance(d_, FUNC_TYPES + (ast.ClassDef, ast.Lambda)) for x in ast.walk(d_)):
+                    continue
                 # uses inside nested functions/lambdas would change evaluation time
                 if any(isinstance(a, FUNC_TYPES + (ast.Lambda,)) and a is not fn for l in loads for a in _ancestors(l) if _is_inside(a, fn)):
                     continue
